@@ -13,6 +13,10 @@
 //	         the honest one.  Also s+L (same Gamma, other encoding of s).
 //	qn       verified proofs x height x workingMiners x totalStake grid: validateProve is pure, survives
 //	         transport, ok => 1 <= qn <= MaxQN, and agrees with an exact big.Rat model of floor(ratio/step)+1.
+//	nodegrid same grid through the node: vrfWorker.genProve (proposer) against verifyBlockVRF on the marshalled
+//	         header (verifier) must reach the same qualification verdict and qn.
+//	witness  stored (key, message index) pairs known to give proofs with two leading zero bytes: regenerated,
+//	         shape re-checked, then all of the above (this is how quick reaches the 78-byte padding path).
 package main
 
 import (
@@ -41,7 +45,7 @@ import (
 // case description (also the replay format)
 
 type kase struct {
-	Kind   string `json:"kind"` // honest | flip | torsion | alts | qn
+	Kind   string `json:"kind"` // honest | flip | torsion | alts | qn | nodegrid
 	Key    int    `json:"key"`
 	Series string `json:"series"` // ctr | len
 	I      int64  `json:"i"`
@@ -753,16 +757,17 @@ type sizes struct {
 	A     int64  // adversarial-prover bases per key (plus the first lzCap leading-zero proofs of every worker)
 	K     uint64 // nonces per (base, T)
 	Q     int64  // qualification bases per key (plus every leading-zero proof)
-	lzCap int64  // leading-zero proofs per worker handed to the adversarial prover (flips and grid: all of them)
+	G     int64  // proposer/verifier grid bases per key
+	lzCap int64  // one-leading-zero proofs per worker that also get the adversarial prover and the proposer/verifier grid
 }
 
 func sizesFor(thorough bool) sizes {
 	if thorough {
 		// N covers (key 0, i=33003) and (key 2, i=4870): proofs with two leading zero bytes
-		return sizes{N: 40960, B: 48, A: 32, K: 64, Q: 64, lzCap: 8}
+		return sizes{N: 40960, B: 48, A: 32, K: 64, Q: 64, G: 4, lzCap: 8}
 	}
 	// ~24 proofs with one leading zero byte (17 within the first 1024 messages per key); two leading zero bytes: thorough only
-	return sizes{N: 2048, B: 4, A: 4, K: 16, Q: 8, lzCap: 1}
+	return sizes{N: 2048, B: 4, A: 4, K: 16, Q: 8, G: 1, lzCap: 1}
 }
 
 func runFlips(c *fw.Ctx, b *base) bool {
@@ -859,6 +864,72 @@ func run(c *fw.Ctx) {
 	}
 	sampled := 0
 	var lzAdv int64
+	// treat runs the follow-up parts on one verified honest proof; every proof with a leading zero byte gets
+	// flips + qualification grid, the first lzCap of them per worker (and every proof with two leading zero
+	// bytes, and every stored witness) also the adversarial prover and the proposer/verifier grid.
+	treat := func(b *base, doFlip, doAdv, doQn, doGrid, witness bool) bool {
+		lzFull := b.lz > 1 || witness
+		if !lzFull && b.lz == 1 && lzAdv < sz.lzCap {
+			lzAdv++
+			lzFull = true
+		}
+		if doFlip || b.lz > 0 {
+			if !runFlips(c, b) {
+				stop("time budget: single-bit mutation part incomplete")
+				return false
+			}
+		}
+		if tors != nil && (doAdv || lzFull) {
+			if !runAdversary(c, b, sz.K) {
+				stop("time budget: adversarial prover part incomplete")
+				return false
+			}
+		}
+		if doQn || b.lz > 0 {
+			if !runQn(c, b) {
+				stop("time budget: qualification grid incomplete")
+				return false
+			}
+		}
+		if doGrid || lzFull {
+			if !runNodeGrid(c, b) {
+				stop("time budget: proposer/verifier grid incomplete")
+				return false
+			}
+		}
+		return true
+	}
+	// stored witnesses first (cheap, and the part of quick that reaches the two-leading-zero padding path)
+	for _, w := range witnesses {
+		idx++
+		if w.series == "ctr" && w.i < sz.N {
+			continue // inside the enumerated range of this tier: handled there
+		}
+		if !c.Mine(idx) || capped {
+			continue
+		}
+		if c.Expired() {
+			stop("time budget: stored witnesses incomplete")
+			break
+		}
+		b, r := honest(w.k, w.series, w.i)
+		w := w
+		report(c, b.kase("honest"), r, func() result { _, r2 := honest(w.k, w.series, w.i); return r2 })
+		if !b.ok {
+			continue
+		}
+		if b.lz != w.lz || (w.hiNext && b.proof[w.lz] < 0x80) {
+			c.Count("witnesses_skipped(shape changed)", 1)
+		} else {
+			c.Count(fmt.Sprintf("witnesses_used_lz%d", b.lz), 1)
+			c.Count(fmt.Sprintf("leading_zero_%d_proofs", b.lz), 1)
+		}
+		if b.lz > 0 {
+			if !treat(b, true, true, true, true, true) {
+				break
+			}
+		}
+	}
 	for k := 0; k < nKeys && !capped; k++ {
 		for _, series := range []string{"ctr", "len"} {
 			n := sz.N
@@ -887,7 +958,7 @@ func run(c *fw.Ctx) {
 						sampled++
 					}
 				}
-				if !treat(b, series == "ctr" && i < sz.B, series == "ctr" && i < sz.A, series == "ctr" && i < sz.Q, series == "ctr" && i < sz.G) {
+				if !treat(b, series == "ctr" && i < sz.B, series == "ctr" && i < sz.A, series == "ctr" && i < sz.Q, series == "ctr" && i < sz.G, false) {
 					break
 				}
 			}
@@ -935,6 +1006,8 @@ func replay(c *fw.Ctx, raw json.RawMessage) {
 		report(c, ks, torsion(b, a, ks.TIdx, ks.Nonce, ks.J), func() result { return torsion(b, a, ks.TIdx, ks.Nonce, ks.J) })
 	case "qn":
 		report(c, ks, qnCase(b, ks.Height, ks.WM, ks.TS), func() result { return qnCase(b, ks.Height, ks.WM, ks.TS) })
+	case "nodegrid":
+		report(c, ks, nodeGridCase(b, ks.Height, ks.WM, ks.TS), func() result { return nodeGridCase(b, ks.Height, ks.WM, ks.TS) })
 	}
 }
 
@@ -944,8 +1017,9 @@ func main() {
 		Rule: "3 seeded key pairs x messages m0..mN-1 in order (32-byte counter messages, VRF message = genVrfMsg(m, 1+i%3)) plus 13 message lengths 0..1000: " +
 			"each proof generated twice, verified, carried through big.Int/header marshalling and re-verified by VRFVerify and verifyBlockVRF; " +
 			"for the first B messages of every key and every proof with a leading zero byte: all single-bit flips of proof/public key/message (direct and transported); " +
-			"adversarial prover: 8 small-order points x nonces 1..K x every guess of c*T, plus s+L; qualification grid 8 heights x 7 workingMiners x 7 totalStakes " +
-			"against an exact big.Rat model. Every case is distinct by construction; non-trivial = an honest proof taken through both paths, a mutant submitted to the verifier, " +
+			"adversarial prover: 8 small-order points x nonces 1..K x every guess of c*T, plus s+L; qualification grid 8 heights x 7 workingMiners x 10 totalStakes " +
+			"against an exact big.Rat model, and the same grid proposer (genProve) against verifier (verifyBlockVRF on the marshalled header); " +
+			"7 stored witnesses (6 proofs with two leading zero bytes, 1 with 00 followed by a byte >= 0x80) regenerated and taken through every part. Every case is distinct by construction; non-trivial = an honest proof taken through both paths, a mutant submitted to the verifier, " +
 			"a crafted proof whose challenge is consistent with the guess (i.e. actually submitted), a grid point evaluated (panics on workingMiners>totalStake excluded).",
 		Assumptions: []string{
 			"the repository's own curve/scalar arithmetic is used to build adversarial proofs (only through the group law; small-order table self-checked by repeated addition)",
